@@ -721,8 +721,13 @@ pub fn refresh(
     let new_rights = if keep_old_rights {
         refresh_coordinate_keys(msk, usk_rights)
     } else {
-        msk.get_latest_right_sk(usk_rights.into_keys())
-            .collect::<Result<RevisionVec<Right, RightSecretKey>, Error>>()?
+        // Rights that do not belong to the MSK anymore are removed.
+        msk.get_latest_right_sk(
+            usk_rights
+                .into_keys()
+                .filter(|r| msk.secrets.contains_key(r)),
+        )
+        .collect::<Result<RevisionVec<Right, RightSecretKey>, Error>>()?
     };
 
     let signature = sign(msk, &new_id, &new_rights)?;
